@@ -84,6 +84,9 @@ class Cell;
  */
 class CellLink
 {
+#ifdef KAUZLARI_SYMPLER_VERIF
+  friend class VerifObserver;
+#endif
 protected:
 
   /*!
@@ -279,6 +282,9 @@ class ManagerCell;
  */
 class Cell: public cuboid_t
 {
+#ifdef KAUZLARI_SYMPLER_VERIF
+  friend class VerifObserver;
+#endif
 protected:
   /*!
    * Neighbors of this cell. Can be more than one,
